@@ -541,7 +541,11 @@ struct Exporter {
       }
       if (auto *X = dyn_cast<CXXDefaultArgExpr>(S)) {
         J.attribute("defaultarg", true);
-        (void)X;
+        if (const Expr *E = X->getExpr()) {
+          E = E->IgnoreParenImpCasts();
+          if (auto *B = dyn_cast<CXXBoolLiteralExpr>(E)) J.attribute("dv", B->getValue());
+          else if (auto *I = dyn_cast<IntegerLiteral>(E)) J.attribute("dv", (int64_t)I->getValue().getLimitedValue());
+        }
         return;
       }
       if (auto *X = dyn_cast<UnaryExprOrTypeTraitExpr>(S)) {
